@@ -59,6 +59,12 @@ ENGINES["file"] = dict(
               "fq6.listed", "fq6.pass", "fq6.no-iana", "fq6.no-mac", "file.comment-line", "file.empty-line", "file.duplicate-mac"],
 )
 
+ENGINES["chain"] = dict(drv="chain", starts=("ccfg",), trivial=r"=> drop$", branches=["chain.cfg4.ok", "chain.cfg6.ok", "chain.drop", "chain.send"])
+ENGINES["allocc"] = dict(drv="alloc", starts=("new6", "new4"), trivial=r"$^", branches=["batch"], noshrink=True)
+ENGINES["rangec"] = dict(drv="range", starts=("rsetup",), trivial=r"$^", branches=["batch"], noshrink=True)
+ENGINES["prefixc"] = dict(drv="prefix", starts=("psetup",), trivial=r"$^", branches=["batch"], noshrink=True)
+ENGINES["dispatch4c"] = dict(drv="dispatch4", starts=(), trivial=r"=> U ; drop ; inv -$", branches=[])
+
 TB_BITSET = "github.com/bits-and-blooms/bitset (New/Test/Set/Clear/NextClear) modelled as List Bool, not verified"
 TB_STD = "Go stdlib net/bytes/encoding/binary/math/bits taken at their documented Nat-level meaning"
 
@@ -71,6 +77,28 @@ TB_CODEC = "insomniacslk/dhcp: FromBytes/ToBytes and the reply constructors are 
 TB_HOOK = "server capture hook (build tag verif): the real HandleMsg4/6 runs; the reply is captured instead of written to a socket"
 
 PROPS = {
+    "C01": dict(
+        engines=[("chain", 2500, 60000), ("dispatch4", 3000, 60000), ("dispatch6", 3000, 60000), ("prefix", 1500, 30000)],
+        theorems=["C01_dispatch4", "C01_dispatch6", "C01_range_never_panics", "C01_alloc6_never_bug", "C01_alloc4_never_panics", "C01_chain_bounded"],
+        modules=["CoreDhcp.Props.C01"],
+        facts=["F1", "F2", "F5"],
+        trusted_base=["insomniacslk/dhcp FromBytes (byte parser assumed total; exercised on mutated datagrams)", "goroutine creation, socket writes, the sleep plugin's bounded delay: runtime, not modelled",
+                      "the plug engine's models of the option plugins have no panic outcome by construction; their encoders' preconditions are C19's"],
+        assumptions=["every modelled lock is released by defer (fact F1), so no outcome leaves a lock held",
+                     "the listener is bound or the kernel reports the receiving interface (fact F5)",
+                     "'never blocks forever' is covered as: no modelled step waits on anything but a mutex, and every mutex is released"],
+    ),
+    "C16": dict(
+        engines=[("allocc", 3000, 60000), ("rangec", 1500, 20000), ("prefixc", 3000, 60000), ("dispatch4c", 3000, 60000)],
+        theorems=["C16_alloc6_any_schedule", "C16_alloc4_any_schedule", "C16_range_any_schedule", "C16_prefix_any_schedule", "C16_file_any_schedule"],
+        modules=["CoreDhcp.Props.C16"],
+        facts=["F1", "F2", "F4"],
+        race=True,
+        trusted_base=["the Go memory model, scheduler and sync.Mutex; the race detector (thorough tier) supports data-race freedom, it proves nothing",
+                      "fact F1 (lock discipline) and F4 (receive buffer returned to the pool after parsing, never touched again) are syntactic checks of the source"],
+        assumptions=["each handler of a stateful plugin is one atomic step (fact F1)",
+                     "concurrent batches are judged by searching a one-at-a-time order under which the Lean model accepts every outcome (linearisability check against the model)"],
+    ),
     "C10": dict(
         engines=[("file", 1500, 20000)],
         theorems=["C10_holds", "C10_accept_iff_wellformed", "C10_mapping_is_file", "C10_all_or_nothing", "C10_own_file", "C10_D8_prefix_refuted"],
